@@ -186,6 +186,13 @@ def top_run(fns, table, comb, N):
             undecided.append('%s / %s are not sequences of binds any more (unknown shape)' % (strict, inc))
             continue
         checked += 4
+        # every step hands the remaining input on: `let (s, x) = P(s)?;` (a step bound as `(_, x)` parses again what the
+        # previous step consumed: the node then holds text twice and the two modes no longer build equal trees)
+        for f, b_ in ((fs, bs), (fi, bi)):
+            for pat, e in b_:
+                if not (pat[0] == 'ptuple' and len(pat[1]) == 2 and pat[1][0] == ('pvar', 's')):
+                    failures.append(fail(f.name, 'top.%s.remaining-input-is-threaded' % f.name, 'a step of the production does not rebind the remaining input `s`', ['C15', 'C01'], f))
+                    break
         # leading trivia is taken first, once
         for f, b_ in ((fs, bs), (fi, bi)):
             if not is_call(b_[0][1], 'many0', [('var', 'white_space')]):
@@ -402,6 +409,68 @@ def direct_access_check(fns):
                     failures.append(fail(f.name, 'C17.direct-state-access.%s.%s' % (f.name, c),
                                          '%s consults/changes parser state through %s(): a result that depends on state outside the memo key (and a side effect that a memo hit skips)' % (f.name, c),
                                          ['C17', 'C07'] + (['C13'] if c in VERSION else []), f))
+    return dict(failures=failures, checked=checked)
+
+
+def shadow_check(fns):
+    """ordered choice: in `alt((.., tag(A), .., tag(B), ..))` an alternative whose literal has an EARLIER literal of the same alt
+    as a proper prefix can never match where it should (PEG: the earlier one wins and the rest is left over).  For the lexers
+    of the preprocessor grammar that changes what a macro body / a directive consists of (C11, C05, C06)."""
+    failures = []
+    checked = 0
+    for f in fns:
+        src = f.body_src
+        for m in re.finditer(r'\balt\s*\(\s*\(', src):
+            o = m.end() - 1
+            d, j = 0, o
+            while j < len(src):
+                if src[j] == '(' :
+                    d += 1
+                elif src[j] == ')':
+                    d -= 1
+                    if d == 0:
+                        break
+                j += 1
+            inner = src[o + 1:j]
+            # top-level alternatives
+            alts, d2, cur, k, in_s = [], 0, 0, 0, False
+            while k < len(inner):
+                c = inner[k]
+                if in_s:
+                    if c == '\\':
+                        k += 1
+                    elif c == '"':
+                        in_s = False
+                elif c == '"':
+                    in_s = True
+                elif c in '([{':
+                    d2 += 1
+                elif c in ')]}':
+                    d2 -= 1
+                elif c == ',' and d2 == 0:
+                    alts.append(inner[cur:k].strip())
+                    cur = k + 1
+                k += 1
+            if inner[cur:].strip():
+                alts.append(inner[cur:].strip())
+            lits = []
+            for a in alts:
+                lm = re.fullmatch(r'tag\(\s*"((?:[^"\\]|\\.)*)"\s*\)', a)
+                if lm:
+                    try:
+                        lits.append(bytes(lm.group(1), 'utf-8').decode('unicode_escape'))
+                    except Exception:
+                        lits.append(None)
+                else:
+                    lits.append(None)
+            checked += 1
+            for i2 in range(len(lits)):
+                for i1 in range(i2):
+                    if lits[i1] is not None and lits[i2] is not None and lits[i1] != lits[i2] and lits[i2].startswith(lits[i1]):
+                        pp = 'compiler_directives' in f.file or 'comments' in f.file
+                        failures.append(fail(f.name, 'peg.shadowed-alternative.%s' % f.name,
+                                             'in an ordered choice tag(%r) stands before tag(%r): the longer literal can never be taken' % (lits[i1], lits[i2]),
+                                             ['C11', 'C05', 'C06'] if pp else ['C02'], f))
     return dict(failures=failures, checked=checked)
 
 
